@@ -29,11 +29,14 @@ Decision per error of every generated (grammar, costs, avoid set, input):
  (iii) correspondence of the search mirror (pinned `shift` unless SHIFT_FIXED) with the
      implementation's set.
 """
+import os
 from vlib import core, repair
 from gen import c06gen
 
 # flip after cpctplus.rs `shift` keeps the neighbour whenever a lexeme was consumed
 SHIFT_FIXED = False
+if core.SCRATCH and os.environ.get("GV_C06_SHIFT_FIXED"):      # mutation-testing aid only (never under ./check on /repo)
+    SHIFT_FIXED = os.environ["GV_C06_SHIFT_FIXED"] == "1"
 
 KNOWN_SHIFT = ("minimum-cost repair missed: shift neighbour dropped when the parse stack returns to an equal value "
                "after consuming a lexeme")
@@ -185,7 +188,7 @@ def run(ctx):
     cases = c06gen.gen_cases(ctx, ctx.n(150, 1500), ctx.n(6, 8))
     impl = run_impl(exe, cases)
     todo = [(i, l) for i, l in enumerate(impl) if l.startswith("G ")]
-    opt = " # OPT ncap=%d maxedits=%d mfuel=%d" % (ctx.n(150000, 600000), ctx.n(6, 7), ctx.n(40000, 150000))
+    opt = " # OPT ncap=%d maxedits=%d mfuel=%d" % (ctx.n(150000, 600000), ctx.n(6, 7), ctx.n(10000, 40000))
     mout = core.run_lines([mexe], [repair.shrink_for_model(l) + opt for _, l in todo], timeout=2400)
     model = {i: m for (i, _), m in zip(todo, mout)}
     compared = 0
@@ -333,6 +336,7 @@ def run(ctx):
                         and (mf_is_ref and mp_is_impl if (m.mp and m.mp[0] == "done" and m.mf and m.mf[0] == "done") else True)):
                     known = KNOWN_SHIFT
                     ctx.count("known_shift_defect_witnesses")
+                    ctx.count("known_shift_defect_family_" + fam)
                 elif not conflict_free and mirror_same:
                     known = KNOWN_NONCONFLUENT
                     ctx.count("known_nonconfluent_table_differences")
